@@ -47,4 +47,8 @@ theorem tie_passes : C12.passes = [(true, "MergeUpdate", true), (false, "update"
 
 theorem tie_cached_value : C12.mergeWriteCachesWritten = true ∧ C12.mergeSkipCachesOld = true := by decide
 
+/-- applyCPUSetWithNonePolicy runs exactly two unconditional sweeps: the merged set in path order, then the
+    new set in reversed path order (`nonePolicy` in the model). -/
+theorem tie_none_policy_sweeps : C12.nonePolicySweeps = [(true, false), (false, true)] := by decide
+
 end KoordVerif.C12
